@@ -1446,8 +1446,13 @@ scan_element(CPPInstance *element, CPPStructType *struct_type,
     // We can only generate a getter and a setter if we can talk about the
     // type it is.
 
-    if (parameter_type->as_struct_type() != nullptr &&
-        !parameter_type->is_trivial()) {
+    CPPType *bare_type = parameter_type;
+    while (bare_type->get_subtype() == CPPDeclaration::ST_typedef) {
+      // (A class named through a typedef is a class all the same.)
+      bare_type = bare_type->as_typedef_type()->_type;
+    }
+    if (bare_type->as_struct_type() != nullptr &&
+        !bare_type->is_trivial()) {
       // Wrap the type in a const reference.
       parameter_type = TypeManager::wrap_const_reference(parameter_type);
     }
